@@ -8,7 +8,7 @@ import (
 )
 
 var serveExplain = map[string]string{
-	"C02": "Structural necessary conditions in the server's per-connection loop, decided for every path of the loop by exhaustive exploration of a finite abstraction (booleans, nil-ness, rule event bits): (R1) a request with 'Expect: 100-continue' whose body was not read (ExpectHandler / ContinueHandler rejection) is answered with Connection: close and never followed by another iteration; (R2) on every path from the handler to the next iteration the code has established, on the request that was actually served (not on a ctx swapped in by the timeout path), that there is no connection-backed body stream or that requestStream.fullyRead() is true - otherwise the close decision is true; the stream object is only released after that. Not decided: the exact byte offset at which the next request starts for all inputs; the multipart pre-parse drain (R3, see DESIGN).",
+	"C02": "Structural necessary conditions in the server's per-connection loop, decided for every path of the loop by exhaustive exploration of a finite abstraction (booleans, nil-ness, rule event bits): (R1) a request with 'Expect: 100-continue' whose body was not read (ExpectHandler / ContinueHandler rejection) is answered with Connection: close and never followed by another iteration; (R2) on every path from the handler to the next iteration the code has established, on the request that was actually served (not on a ctx swapped in by the timeout path), that there is no connection-backed body stream or that requestStream.fullyRead() is true - otherwise the close decision is true; the stream object is only released after that. (R3) a length-limited reader over the connection that is handed to a parser which may stop early (multipart pre-parse) is drained before success is reported. Not decided: the exact byte offset at which the next request starts for all inputs.",
 	"C10": "Structural necessary conditions of the keep-alive decision in the serve loop: (R1) the condition guarding SetConnectionClose depends (through phis, && / ||, and helper functions) on each documented source: DisableKeepalive, request and response Connection: close, MaxRequestsPerConn, CloseOnShutdown+stop, Expect/Continue rejection, unread streamed body; (R2) on every path: decision true => Connection: close is set on the response object that is written and no further iteration follows; decision false on a non-HTTP/1.1 request => Connection: keep-alive is set; (R3) the decision does not read per-request bookkeeping from a ctx that was swapped in after the handler (timeout path). Not decided: token/case handling of the Connection header value, client side reuse.",
 	"C11": "Structural necessary conditions of 'no state leaks between requests': (E7) every leaf field of Request, Response, RequestHeader, ResponseHeader, URI, Args, Cookie and RequestCtx is assigned (or known nil, or reset through its pointee) on every path of the type's reset method including callees, or is in a table of reasoned exemptions (scratch buffers, configuration, self pointers) - a newly added field is a violation until reset or exempted; (R-loop) every variable of the serve loop that survives an iteration is re-assigned before it is read in a later iteration on every path, or the loop provably ends; (R-reset) every path from the handler to the next iteration passes Request.Reset and Response.Reset. Not decided: that getters return exactly what the current request sent.",
 	"C14": "The sequence of ConnState values the serve loop reports, decided on every path of the loop as an automaton: StateActive only follows New/Idle, StateIdle only follows Active, the handler and the response write happen in Active, an iteration that continues ends in Idle, and StateActive is only reported on a path on which a read of at least one byte succeeded. Not decided: the New/Closed/Hijacked reports of the callers (worker pool, ServeConn) and cross-goroutine ordering.",
@@ -27,6 +27,12 @@ func init() {
 			}
 			if id == "C11" {
 				resetCoverageRule(p, r)
+			}
+			if id == "C16" {
+				timeoutProducerRule(p, r, "C16")
+			}
+			if id == "C02" {
+				limitedReaderDrainRule(p, r)
 			}
 		}})
 	}
@@ -205,4 +211,155 @@ func resetExemptReason(typ, fp string) string {
 		return "configuration copied from Server.FormValueFunc when the ctx is acquired"
 	}
 	return ""
+}
+
+// timeoutProducerRule: the functions that install RequestCtx.timeoutResponse.
+//   C16.R4: the installed response is a freshly allocated object filled by CopyTo (a private copy,
+//           not the caller's pointer, which the caller may go on mutating);
+//   C03.R4b: it gets SkipBody = true under IsHead() of the timed-out request, because the serve loop
+//           writes it from a fresh ctx that no longer knows the request method.
+func timeoutProducerRule(p *Prog, r *Report, prop string) {
+	fCopyTo := p.Func("(*Response).CopyTo")
+	fIsHead := p.Func("(*RequestCtx).IsHead")
+	n := 0
+	for _, fn := range p.funcsIn("") {
+		for _, b := range fn.Blocks {
+			for _, in := range b.Instrs {
+				st, ok := in.(*ssa.Store)
+				if !ok {
+					continue
+				}
+				_, fv := fieldOfAddr(st.Addr)
+				if fv == nil || fv.Name() != "timeoutResponse" || isNilConst(st.Val) {
+					continue
+				}
+				if c, isC := st.Val.(*ssa.Const); isC && c.Value == nil {
+					continue
+				}
+				n++
+				name := funcName(fn)
+				al, fresh := st.Val.(*ssa.Alloc)
+				switch prop {
+				case "C16":
+					copied := false
+					if fresh {
+						allCalls(fn, func(bb *ssa.BasicBlock, c ssa.CallInstruction) {
+							if isCallTo(c, fCopyTo) && len(c.Common().Args) == 2 && c.Common().Args[1] == ssa.Value(al) && dominatesInstr(c.(ssa.Instruction), st) {
+								copied = true
+							}
+						})
+					}
+					r.Check("R4", name+": the installed timeout response is a fresh object filled by CopyTo before it is published", fresh && copied, p.Pos(st.Pos()),
+						"ctx.timeoutResponse is set to a value that is not a freshly allocated Response into which the caller's response was copied: the serve loop would write an object the caller can still mutate")
+				case "C03":
+					skip := false
+					for _, bb := range fn.Blocks {
+						for _, i2 := range bb.Instrs {
+							s2, ok := i2.(*ssa.Store)
+							if !ok {
+								continue
+							}
+							base, f2 := fieldOfAddr(s2.Addr)
+							if f2 == nil || f2.Name() != "SkipBody" || !fresh || base != ssa.Value(al) {
+								continue
+							}
+							if c, isC := s2.Val.(*ssa.Const); !isC || c.Value == nil || c.Value.ExactString() != "true" {
+								continue
+							}
+							for _, g := range guardsOf(bb) {
+								if cv, isCall := g.Cond.(*ssa.Call); isCall && isCallTo(cv, fIsHead) && g.Pol && (bb == st.Block() || blockReaches(bb, st.Block(), nil)) {
+									skip = true
+								}
+							}
+						}
+					}
+					r.Check("R4b", name+": the timeout response of a HEAD request is installed with SkipBody", skip, p.Pos(st.Pos()),
+						"the response stored in ctx.timeoutResponse does not get SkipBody = true under ctx.IsHead(); the serve loop writes it from a fresh ctx that cannot tell the request was HEAD, so a body would follow the headers of a HEAD response")
+				}
+			}
+		}
+	}
+	rule := "R4"
+	if prop == "C03" {
+		rule = "R4b"
+	}
+	r.Floor(rule, "functions installing ctx.timeoutResponse", n, 1)
+}
+
+// C02.R3: a length-limited reader placed over a caller-supplied reader on the
+// request-body path, and handed to a parser that may stop early, is drained to
+// exhaustion before the function reports success; otherwise the rest of the
+// framed body stays on the connection and is parsed as the next request.
+func limitedReaderDrainRule(p *Prog, r *Report) {
+	roots := []*ssa.Function{p.Func("(*Request).ContinueReadBody"), p.Func("(*Request).readLimitBody"), p.Func("(*Request).ReadBody")}
+	reach := p.reachableFuncs(roots, 6)
+	isDrain := func(f *ssa.Function) bool {
+		if f == nil {
+			return false
+		}
+		if !inModule(f) {
+			path := ""
+			if f.Pkg != nil {
+				path = f.Pkg.Pkg.Path()
+			}
+			return (path == "io" || path == "io/ioutil") && (f.Name() == "Copy" || f.Name() == "CopyBuffer" || f.Name() == "CopyN" || f.Name() == "ReadAll")
+		}
+		switch f.Name() {
+		case "copyZeroAlloc", "copyBuffer", "copyBodyStream":
+			return true
+		}
+		return false
+	}
+	n := 0
+	for fn := range reach {
+		if !inModule(fn) || fn.Blocks == nil {
+			continue
+		}
+		allCalls(fn, func(b *ssa.BasicBlock, c ssa.CallInstruction) {
+			cv, ok := c.(*ssa.Call)
+			if !ok || !stdCall(cv, "io", "LimitReader") {
+				return
+			}
+			if _, isParam := cv.Call.Args[0].(*ssa.Parameter); !isParam {
+				return
+			}
+			// consumers of the limited reader
+			parser := ""
+			for _, ref := range *cv.Referrers() {
+				if cc, ok := ref.(ssa.CallInstruction); ok {
+					if f := cc.Common().StaticCallee(); !isDrain(f) {
+						parser = calleeName(cc)
+					}
+				}
+			}
+			if parser == "" {
+				return
+			}
+			n++
+			drain := func(in ssa.Instruction) bool {
+				cc, ok := in.(ssa.CallInstruction)
+				if !ok || !isDrain(cc.Common().StaticCallee()) {
+					return false
+				}
+				for _, a := range cc.Common().Args {
+					if a == ssa.Value(cv) {
+						return true
+					}
+				}
+				return false
+			}
+			success := func(in ssa.Instruction) bool {
+				rt, ok := in.(*ssa.Return)
+				if !ok {
+					return false
+				}
+				rr := returnResults(rt)
+				return len(rr) > 0 && isNilConst(rr[len(rr)-1])
+			}
+			hit, path := reachAvoiding(fn, cv, success, drain, nil)
+			r.Check("R3", funcName(fn)+": the length-limited reader handed to "+parser+" is drained before success is reported", hit == nil, p.Pos(cv.Pos()),
+				"a nil-error return is reachable from io.LimitReader without copying the rest of the limited reader away: bytes between the end of what the parser consumed and the declared length stay on the connection and are parsed as the next request", blocksString(p, path)...)
+		})
+	}
+	r.Floor("R3", "length-limited readers over a caller's reader handed to a parser on the request-body path", n, 1)
 }
